@@ -23,7 +23,8 @@ Definition db := Z -> list row.                         (* table of a mapped cla
 Inductive sexpr := SCol (i : nat) (a : Z) | SConst (v : val).
 Inductive spred :=
 | SCmp (op : cmpop) (a b : sexpr)
-| SIsNull (neg : bool) (a : sexpr)           (* IS NULL / IS NOT NULL : what SQLAlchemy emits for == None / != None *)
+| SIsNull (neg : bool) (a : sexpr)           (* IS NULL / IS NOT NULL : what SQLAlchemy emits for == None *)
+| SNullSafe (neg : bool) (a b : sexpr)       (* a IS b / a IS NOT b : is_not_distinct_from / is_distinct_from, two-valued *)
 | SIn (a : sexpr) (vs : list val)
 | SInstr (hay : list Z) (a : sexpr)          (* instr(:hay, col) > 0 *)
 | SInstrCol (a : sexpr) (needle : list Z)    (* instr(col, :needle) > 0 *)
@@ -69,14 +70,28 @@ Definition sql_cmp (op : cmpop) (a b : val) : tv :=
 Fixpoint sql_in (v : val) (vs : list val) : tv :=
   match vs with [] => TF | x :: vs' => tv_or (sql_eq v x) (sql_in v vs') end.
 
+(* NULL-safe equality: NULL IS NULL holds, NULL IS 1 does not *)
+Definition nullsafe_eq (a b : val) : bool :=
+  match a, b with
+  | VNull, VNull => true
+  | VNull, _ | _, VNull => false
+  | _, _ => tv_true (sql_eq a b)
+  end.
+
 Fixpoint eval_pred (env : list row) (p : spred) : tv :=
   match p with
   | SCmp op a b => sql_cmp op (eval_sx env a) (eval_sx env b)
   | SIsNull neg a => match eval_sx env a with VNull => tv_of_bool (negb neg) | _ => tv_of_bool neg end
+  | SNullSafe neg a b => tv_of_bool (xorb neg (nullsafe_eq (eval_sx env a) (eval_sx env b)))
   | SIn a vs => sql_in (eval_sx env a) vs
   | SInstr hay a => match eval_sx env a with VStr n => tv_of_bool (is_infix n hay) | VNull => TU | _ => TF end
   | SInstrCol a n => match eval_sx env a with VStr h => tv_of_bool (is_infix n h) | VNull => TU | _ => TF end
-  | STruth a => match eval_sx env a with VInt z => tv_of_bool (negb (z =? 0)) | VNull => TU | _ => TF end
+  | STruth a => match eval_sx env a with             (* WHERE col; a text column is rendered as col != '' *)
+                | VInt z => tv_of_bool (negb (z =? 0))
+                | VStr s => tv_of_bool (negb (zlist_eqb s []))
+                | VNull => TU
+                | _ => TF
+                end
   | SAnd p q => tv_and (eval_pred env p) (eval_pred env q)
   | SOr p q => tv_or (eval_pred env p) (eval_pred env q)
   end.
@@ -99,7 +114,7 @@ Definition unbindable (v : val) : bool := match v with VRef _ | VObjLit => true 
 Definition sx_bad (e : sexpr) : bool := match e with SConst v => unbindable v | _ => false end.
 Fixpoint pred_bad (p : spred) : bool :=
   match p with
-  | SCmp _ a b => sx_bad a || sx_bad b
+  | SCmp _ a b | SNullSafe _ a b => sx_bad a || sx_bad b
   | SIsNull _ a | SInstr _ a | SInstrCol a _ | STruth a => sx_bad a
   | SIn a vs => sx_bad a || existsb unbindable vs
   | SAnd p q | SOr p q => pred_bad p || pred_bad q
